@@ -21,6 +21,7 @@ import re
 from vlib import common
 
 IMPL = os.path.join(common.VERIF, "corr", "C04_impl.py")
+BACKENDS = ["cg", "bicg", "gmres", "lgmres", "lsq_linear"]
 ELEM = {"SEG2": 2, "SEG3": 3, "TRI3": 3, "QUAD4": 4}
 
 
@@ -341,6 +342,41 @@ def gen_phys(rng, cid, tier):
             "neumann": neumann, "backends": backends, "lag_as": lag_as}
 
 
+def gen_multi(rng, cid):
+    """several solves on one simulation object with boundary-condition changes in between"""
+    kind = rng.choice(["elastic", "thermal"])
+    elem = rng.choice(["QUAD4", "TRI3"])
+    nx, ny = rng.randint(2, 4), rng.randint(2, 3)
+    unk = ["x", "y"] if kind == "elastic" else ["t"]
+    allnodes = list(range((nx + 1) * (ny + 1)))
+
+    def conds(k1, k2, us2):
+        nodes = rng.sample(allnodes, k1 + k2)
+        a, b = nodes[:k1], nodes[k1:]
+        return [{"nodes": a, "unknowns": list(unk), "values": [{"kind": "const", "v": 0.0} for _ in unk]},
+                {"nodes": b, "unknowns": us2, "values": [gen_value(rng, b) for _ in us2]}]
+    k1, k2 = rng.randint(2, 3), rng.randint(1, 3)
+    us2 = rng.sample(unk, 1)
+    first = conds(k1, k2, us2)
+    load = [{"nodes": rng.sample(allnodes, 2), "unknowns": rng.sample(unk, 1), "values": [{"kind": "const", "v": dy(rng)}]}]
+    stages = [{"kind": "first", "bc_init": False, "dirichlet": first, "neumann": load}]
+    cur = first
+    for _ in range(rng.randint(2, 4)):
+        k = rng.choice(["reinit-other-nodes-equal-counts", "reinit-other-nodes-equal-counts", "reinit-values-only", "add-condition"])
+        if k == "reinit-other-nodes-equal-counts":
+            cur = conds(k1, k2, us2)          # same number of conditions and entries, other nodes
+            stages.append({"kind": k, "bc_init": True, "dirichlet": cur, "neumann": load})
+        elif k == "reinit-values-only":
+            cur = [cur[0], {"nodes": cur[1]["nodes"], "unknowns": cur[1]["unknowns"], "values": [gen_value(rng, cur[1]["nodes"]) for _ in cur[1]["unknowns"]]}] + cur[2:]
+            stages.append({"kind": k, "bc_init": True, "dirichlet": cur, "neumann": load})
+        else:
+            b = rng.sample(allnodes, rng.randint(1, 2))
+            extra = {"nodes": b, "unknowns": rng.sample(unk, 1), "values": [gen_value(rng, b)]}
+            cur = cur + [extra]
+            stages.append({"kind": k, "bc_init": False, "dirichlet": [extra], "neumann": []})
+    return {"id": cid, "kind": kind, "elem": elem, "nx": nx, "ny": ny, "orphans": 0, "stages": stages}
+
+
 SPECIAL_KEYS = {
     "r2:duplicate-dirichlet-holds-sum": "lagrange-duplicate-dirichlet",
     "r2:mpc-holds": "lagrange-duplicate-dirichlet",
@@ -363,18 +399,28 @@ def physics(ctx):
                {"id": 2, "scenario": "hyperelastic-newton-duplicate", "v1": 0.125, "v2": 0.0},
                {"id": 3, "scenario": "hyperelastic-newton-duplicate", "v1": 0.0625, "v2": 0.0625},
                {"id": 4, "scenario": "beam-connection", "F": 0.5},
-               {"id": 5, "scenario": "beam-connection", "F": 0.25, "duplicate": True}]
+               {"id": 5, "scenario": "beam-connection", "F": 0.25, "duplicate": True},
+               # problems WITH Lagrange conditions, every installed backend configured on the simulation
+               {"id": 6, "scenario": "beam-connection-backends", "nel": 100, "F": 0.5, "elem": "SEG3", "backends": BACKENDS},
+               {"id": 7, "scenario": "beam-connection-backends", "nel": rng.choice([60, 80, 120]), "F": dy(rng, 1, 8), "elem": rng.choice(["SEG2", "SEG3"]), "backends": BACKENDS},
+               {"id": 8, "scenario": "elastic-mpc-backends", "nx": rng.randint(6, 10), "ny": rng.randint(4, 6), "v1": dy(rng, 1, 8), "v2": dy(rng), "backends": BACKENDS}]
     sres, err = call_impl(ctx, "special", special, nchunk=3)
     if sres is None:
         ctx.obligation("corrB:special-run", False, err[-1500:])
         ctx.violation("corrB:impl-crash", "special-scenario harness failed: " + (err.strip().splitlines()[-1][:300] if err.strip() else "?"), {"stderr": err[-3000:]}, found_input=False)
         return
-    ctx.log("physics: %d generated problems, %d named scenarios" % (len(results), len(sres)))
+    mcases = [gen_multi(rng, i) for i in range(30 if ctx.tier == "quick" else 200)]
+    mres, err = call_impl(ctx, "multi", mcases)
+    if mres is None:
+        ctx.obligation("corrB:multi-run", False, err[-1500:])
+        ctx.violation("corrB:impl-crash", "multi-solve harness failed: " + (err.strip().splitlines()[-1][:300] if err.strip() else "?"), {"stderr": err[-3000:]}, found_input=False)
+        return
+    ctx.log("physics: %d generated problems, %d named scenarios, %d multi-solve histories (%d solves)" % (len(results), len(sres), len(mres), sum(len(c["stages"]) for c in mcases)))
     byid = {c["id"]: c for c in cases}
     fails = {}
     nchecks = 0
     names = {}
-    for mode, rs, cs in (("phys", results, byid), ("special", sres, {c["id"]: c for c in special})):
+    for mode, rs, cs in (("phys", results, byid), ("special", sres, {c["id"]: c for c in special}), ("multi", mres, {c["id"]: c for c in mcases})):
         for cid, res in sorted(rs.items()):
             case = cs[cid]
             if res.get("error"):
@@ -382,12 +428,17 @@ def physics(ctx):
                 continue
             for c in res["checks"]:
                 nchecks += 1
-                base = re.sub(r"^backend:[a-z_]+:", "backend:", c["name"])
+                base = re.sub(r"^(backend|lagrange-backends):[a-z_]+:", r"\1:", c["name"])
+                base = re.sub(r"^multi:stage\d+:", "multi:", base)
                 names[base] = names.get(base, 0) + 1
                 if not c["ok"]:
                     key = SPECIAL_KEYS.get(c["name"]) if mode == "special" else None
                     if key is None and re.match(r"backend:[a-z_]+:runs$", c["name"]):
                         key = "backend-raises:" + c["name"].split(":")[1]
+                    if key is None and c["name"].startswith("lagrange-backends:"):
+                        key = "lagrange-backend:" + c["name"].split(":")[1]
+                    if key is None and c["name"].startswith("multi:"):
+                        key = "multi-solve:" + c["name"].split(":")[3]
                     if key is None and re.match(r"backend:[a-z_]+:agrees-with-direct$", c["name"]):
                         key = "backend-disagrees:" + c["name"].split(":")[1]
                     if key is None:
@@ -406,6 +457,13 @@ def physics(ctx):
                       {"replay_py": REPLAY % dict(req=json.dumps({"mode": mode, "cases": [case]}), expected=None), "case": case, "check": c}, found_input=True)
     ctx.cov["physics_checks"] = names
     ctx.cov["physics_problems"] = len(results)
+    ctx.cov["multi_solve_histories"] = len(mres)
+    stage_kinds = {}
+    for c in mcases:
+        for st in c["stages"]:
+            stage_kinds[st["kind"]] = stage_kinds.get(st["kind"], 0) + 1
+    ctx.cov["multi_solve_stage_kinds"] = stage_kinds
+    ctx.cov["lagrange_backend_scenarios"] = [{k: c[k] for k in c if k != "backends"} for c in special if "backends" in c]
     ctx.cov["backends_sampled"] = sorted({b for c in cases for b in c["backends"]})
     ctx.cov["backend_cases"] = sum(1 for c in cases if c["backends"])
     ctx.cov["rule"] = "A: integer systems through the real solver plumbing, distinct by (case, mode, #duplicate dofs); B: real Elastic/Thermal problems and named scenarios, one trace per problem; all choices from ctx.rng"
